@@ -151,13 +151,31 @@ func runC05(t *testing.T, rc *core.RunCtx) {
 		cfg.pVeto = 0
 	}
 	p := genPlan(rc.Plan, &cfg)
-	rc.Desc = p.String() + fmt.Sprintf(" bindKinds=%v prefix=%v", p.bindKinds, p.bindPrefix)
+	// one binding may be detached from inside a handler of another one, in
+	// the middle of a transition: the others must not notice
+	detachAt, detachWho := -1, -1
+	if p.bindings > 1 && rc.Plan.Draw(3) == 0 {
+		detachAt, detachWho = rc.Plan.Draw(30), rc.Plan.Draw(p.bindings)
+	}
+	rc.Desc = p.String() + fmt.Sprintf(" bindKinds=%v prefix=%v detach=b%d@%d", p.bindKinds, p.bindPrefix, detachWho, detachAt)
 	rc.Shape = rc.Desc
 	core.Bubble(t, rc, func(s *core.Sim) {
 		w := newMW(s, &cfg, p)
 		defer w.shutdown()
 		s.Horizon = time.Second
 		all, eff := w.all, w.eff
+		detachedFrom := -1 // index of the transition during which the binding went
+		w.onHandler = append(w.onHandler, func(c *hCall, e *am.Event) {
+			if c.k == detachAt && detachedFrom < 0 && c.binding != detachWho {
+				if err := w.m.HandlersDetach(fmt.Sprint("b", detachWho)); err == nil {
+					s.Probe("binding-detached-mid-transition")
+					detachedFrom = 0
+					if c.tx != nil {
+						detachedFrom = c.tx.idx
+					}
+				}
+			}
+		})
 		w.onTxEnd = append(w.onTxEnd, func(tx *txRec) {
 			if tx.faulted {
 				return
@@ -180,6 +198,9 @@ func runC05(t *testing.T, rc *core.RunCtx) {
 				return
 			}
 			for b := 0; b < p.bindings; b++ {
+				if b == detachWho && detachedFrom >= 0 && tx.idx >= detachedFrom {
+					continue // gone, from somewhere inside that transition on
+				}
 				var calls []*hCall
 				for _, ci := range tx.calls {
 					if w.calls[ci].binding == b {
